@@ -316,3 +316,19 @@ Example routing_nonvacuous :
   routed_sum (fun k => snd k =? 0) (materialize_p day median b) = 7 /\ routed_min (fun k => snd k =? 0) (materialize_p day median b) = Some (-2) /\
   routed_count (fun k => fst k <? 20) (materialize_p day median b) = 4 /\ length (materialize_p day median b) = 4%nat.
 Proof. vm_compute. repeat split; reflexivity. Qed.
+
+(* ---------- the matcher's combination logic (Model/Satisfy.v) ---------- *)
+Require Import V.Model.Satisfy.
+Lemma can_satisfy_sound p qdims metrics qgran compatible fcols : can_satisfy p qdims metrics qgran compatible fcols = true ->
+  (forall d, In d qdims -> rollup_column p d = true) /\ (forall m, In m metrics -> m = (true, true)) /\
+  (forall cols c, fcols = Some cols -> In c cols -> rollup_column p c = true) /\
+  (forall qg pg, qgran = Some qg -> p_gran p = Some pg -> qg <> ""%string -> pg <> ""%string -> compatible = true).
+Proof.
+  unfold can_satisfy. intros H. apply andb_true_iff in H. destruct H as [H Hf]. apply andb_true_iff in H. destruct H as [H Hg].
+  apply andb_true_iff in H. destruct H as [Hd Hm]. repeat split.
+  - intros d Hin. rewrite forallb_forall in Hd. exact (Hd d Hin).
+  - intros [a b] Hin. rewrite forallb_forall in Hm. specialize (Hm _ Hin). cbn in Hm. apply andb_true_iff in Hm. destruct Hm as [-> ->]. reflexivity.
+  - intros cols c -> Hin. rewrite forallb_forall in Hf. exact (Hf c Hin).
+  - intros qg pg -> Hp Hq Hpg. rewrite Hp in Hg.
+    destruct (String.eqb_spec qg ""%string) as [E|_]; [contradiction|]. destruct (String.eqb_spec pg ""%string) as [E|_]; [contradiction|]. exact Hg.
+Qed.
